@@ -26,7 +26,9 @@ from fractions import Fraction
 
 import numpy as np
 
-from runner import Infra
+import textwrap
+
+from runner import Infra, TieBroken
 
 ID = "C19"
 LEAN_MODULES = ["PyYetiVerif.Props.C19", "PyYetiVerif.Audit.C19"]
@@ -168,6 +170,60 @@ def _numba_source(repo):
                 return fns
     raise Infra("dsp.py: cannot find the numba variants of the closest-time routines "
                 "(`if not HAVE_NUMBA: ... else:` at module level)")
+
+
+# ---------------------------------------------------------------------------------------
+# rescale's band-edge code: source text -> plain Python (never by calling rescale)
+
+_EDGE_SRC = None  # (get_fl_fu, in_edges) once `translate` has run
+
+
+def _assigned(stmts):
+    out = set()
+    for st in stmts:
+        if isinstance(st, ast.Assign):
+            for t in st.targets:
+                for n in ([t] if isinstance(t, ast.Name) else list(getattr(t, "elts", []))):
+                    if isinstance(n, ast.Name):
+                        out.add(n.id)
+    return out
+
+
+def _rescale_edge_source(repo):
+    """the nested `_get_fl_fu(fcenter)` of psd.rescale and the statement pair
+    `Df = np.diff(F)` / `if <exact test>: FLin, FUin = ... else: FLin, FUin = _get_fl_fu(F)`, exec'd as
+    plain Python from the source text"""
+    src = open(os.path.join(repo, "pyyeti", "psd.py")).read()
+    tree = ast.parse(src)
+    resc = next((n for n in tree.body if isinstance(n, ast.FunctionDef) and n.name == "rescale"), None)
+    if resc is None:
+        raise TieBroken("psd.py: function `rescale` not found")
+    gf = next((n for n in resc.body if isinstance(n, ast.FunctionDef) and n.name == "_get_fl_fu"), None)
+    if gf is None or len(gf.args.args) != 1:
+        raise TieBroken("psd.rescale: nested `_get_fl_fu(fcenter)` not found")
+    blk = None
+    for a, b in zip(resc.body, resc.body[1:]):
+        if (isinstance(a, ast.Assign) and _assigned([a]) == {"Df"} and isinstance(b, ast.If)
+                and {"FLin", "FUin"} <= _assigned(b.body) and {"FLin", "FUin"} <= _assigned(b.orelse)):
+            blk = (a, b)
+    if blk is None:
+        raise TieBroken("psd.rescale: the `Df = np.diff(F)` / `if ...: FLin, FUin = ... else: ...` block not found")
+    ns = {"np": np}
+    mod = ast.Module(body=[gf], type_ignores=[])
+    ast.fix_missing_locations(mod)
+    exec(compile(mod, "<psd.py rescale._get_fl_fu>", "exec"), ns)
+    text = "def _in_edges(F):\n" + textwrap.indent(ast.unparse(blk[0]) + "\n" + ast.unparse(blk[1]), "    ") \
+           + "\n    return FLin, FUin\n"
+    exec(compile(text, "<psd.py rescale input-edge block>", "exec"), ns)
+    return ns["_get_fl_fu"], ns["_in_edges"]
+
+
+def translate(ctx):
+    global _EDGE_SRC
+    _EDGE_SRC = None
+    _EDGE_SRC = _rescale_edge_source(ctx.repo)
+    ctx.extra["rescale_edge_code"] = "source text of rescale._get_fl_fu and of the input-edge block, exec'd as plain Python"
+    return ["psd.rescale._get_fl_fu (source text)", "psd.rescale input-edge block (source text)"]
 
 
 # ---------------------------------------------------------------------------------------
@@ -350,6 +406,12 @@ def _slopes(spec):
     return out
 
 
+def _lin_dev(v):
+    """max |Df/Df[0] - 1| of a centre-frequency scale (the quantity rescale._get_fl_fu compares with 1e-12)"""
+    d = np.diff(np.asarray(v, dtype=float))
+    return float(np.max(np.abs(d / d[0] - 1.0))) if len(d) and d[0] != 0 else float("inf")
+
+
 def _gen_scale(rng, nprng, kind, lo=None, n=None):
     """centre frequencies: 'lin' (dyadic, exactly linear), 'lintol' (linear within 1e-12 only), 'log'"""
     n = n or rng.randint(3, 24)
@@ -365,15 +427,49 @@ def _gen_scale(rng, nprng, kind, lo=None, n=None):
         if np.all(df == df[0]):
             v[-1] = float(np.nextafter(v[-1], np.inf))
         return v
+    if kind == "nearlin":
+        # linear except for one step that is off by a relative amount on either side of the code's 1e-12
+        for _ in range(50):
+            d = rng.choice([0.25, 0.5, 1.0, 3.0])
+            a = rng.choice([0.5, 1.0, 2.0]) if lo is None else float(lo)
+            m = min(n, 12)
+            delta = rng.choice([1e-13, 2e-13, 2e-11, 1e-9, 1e-7, 1e-5, 1e-3])
+            j = rng.randrange(1, m)
+            v = [a + k * d + (d * delta if k >= j else 0.0) for k in range(m)]
+            dev = _lin_dev(v)
+            if 0 < dev < 3e-13 or dev > 1e-11:
+                return v
+        return [a + k * d for k in range(m)]
     r = rng.choice([2 ** 0.5, 2 ** (1 / 3), 1.3, 2.0, 1.1])
     a = rng.choice([0.5, 1.0, 3.0, 10.0]) if lo is None else float(lo)
     return [a * r ** k * (1.0 if k % 3 else 1.0 + rng.choice([0.0, 0.01])) for k in range(n)]
 
 
+def _nearlin_from(v, rng):
+    """perturb one step of a linear scale by a relative amount clearly below or clearly above 1e-12"""
+    v = [float(x) for x in v]
+    if len(v) < 3:
+        return v
+    d = v[1] - v[0]
+    if v[0] <= 0:  # a scale that is not linear is read as logarithmic: positive frequencies only
+        sh = float(math.ceil(-v[0] / d) + 1) * d
+        v = [x + sh for x in v]
+    for _ in range(30):
+        delta = rng.choice([1e-13, 2e-13, 2e-11, 1e-9, 1e-7, 1e-5, 1e-3])
+        j = rng.randrange(1, len(v))
+        w = [x + (d * delta if k >= j else 0.0) for k, x in enumerate(v)]
+        dev = _lin_dev(w)
+        if 0 < dev < 3e-13 or dev > 1e-11:
+            return w
+    return v
+
+
 def _gen_rescale(rng, nprng):
-    kin = rng.choice(["lin", "lin", "lintol", "log"])
-    kout = rng.choice(["lin", "lin", "lintol", "log", "log"])
-    F = _gen_scale(rng, nprng, kin)
+    kin = rng.choice(["lin", "lin", "lintol", "log", "nearlin"])
+    kout = rng.choice(["lin", "lin", "lintol", "log", "log", "nearlin"])
+    F = _gen_scale(rng, nprng, "lin" if kin == "nearlin" else kin)
+    if kin == "nearlin":
+        F = _nearlin_from(F, rng)
     if kin != "log" and F[0] == 0.0 and kout == "log":
         pass
     span = F[-1] - F[0]
@@ -401,10 +497,12 @@ def _gen_rescale(rng, nprng):
             lo_, hi_ = F[0], F[-1]
         else:
             lo_, hi_ = F[0] - 0.5 * span, F[-1] + 0.5 * span
-        if kout == "lin":
+        if kout in ("lin", "nearlin"):
             d = Fraction(max(1, int((hi_ - lo_) * 64 / (n - 1))), 64)
             a = Fraction(int(lo_ * 64), 64)
             freq = [float(a + k * d) for k in range(n)]
+            if kout == "nearlin":
+                freq = _nearlin_from(freq, rng)
         else:
             d = (hi_ - lo_) / (n - 1) * 1.0000001
             freq = [lo_ + k * d for k in range(n)]
@@ -533,9 +631,20 @@ def _corr_fixtime(ctx, drv):
             req.append("pv %s | %s" % (_qs(ts), _qs(tn)))
         else:
             req.append("cl %s | %s" % (_qs(tc), _qs(tn)))
+        req.append("mkt %s | %s" % (_q(c["sr"]), _qs(tc)))
         runs.append((c, tn, yn, tc, yc))
     rep = drv.ask(req)
-    for (c, tn, yn, tc, yc), r in zip(runs, rep):
+    for k, (c, tn, yn, tc, yc) in enumerate(runs):
+        r, rt = rep[2 * k], rep[2 * k + 1]
+        # the time base fixtime returns is the modelled _mk_initial_tnew of the cleaned, sorted old times
+        if rt in ("raises", "bad-op"):
+            ctx.disagree("fixtime-tnew", c, {"len": len(tn)}, rt)
+        else:
+            ok, exact, m = _cmp_tnew(tn, rt, 1 / c["sr"])
+            ctx.count("branch:fixtime-tnew-end-to-end")
+            if not ok:
+                ctx.disagree("fixtime-tnew", c, {"tnew": np.asarray(tn).tolist()[:10], "len": len(tn)},
+                             {"tnew": [float(x) for x in m["tnew"][:10]], "len": len(m["tnew"]), "delt": str(m["delt"])})
         if r in ("index-error", "bad-op"):
             ctx.disagree("fixtime-index", c, "returned %d samples" % len(yn), r)
             continue
@@ -597,7 +706,14 @@ def _corr_resample(ctx, drv):
         M = 2 * pts * max(p // g, q // g)
         w = signal.windows.kaiser(M + 1, beta)
         data = nprng.normal(size=ln) + rng.choice([0.0, 3.0])
+        if rng.random() < 0.15:
+            data = np.full(ln, float(rng.choice([3.0, -0.375, 0.1, 1e6 + 0.3])))
         ncases.append((p, q, pts, beta, w, data))
+    for p, q, pts, cval in ((3, 1, 3, 3.0), (2, 1, 2, 0.1), (4, 6, 2, -0.375), (1, 5, 3, 1e6 + 0.3)):
+        g = math.gcd(p, q)
+        w = signal.windows.kaiser(2 * pts * max(p // g, q // g) + 1, 14)
+        ncases.append((p, q, pts, 14, w, np.full(11, cval)))
+        ncases.append((p, q, pts, 14, w, nprng.normal(size=11)))
     req = []
     for p, q, pts, beta, w, data in ncases:
         req.append("fir %d %d %d | %s" % (p, q, pts, _bits(w)))
@@ -608,6 +724,14 @@ def _corr_resample(ctx, drv):
         mf, mo = _unbits(rep[2 * k]), _unbits(rep[2 * k + 1])
         inp = {"p": p, "q": q, "pts": pts, "beta": beta, "data": data.tolist()}
         ctx.case(("rs", p, q, pts, beta, tuple(data.tolist())), nontrivial=True, branch="resample-numeric")
+        g = math.gcd(p, q)
+        if q // g == 1 and p // g > 1:
+            ctx.count("branch:resample-upsample-q1")
+            # the model's retained samples (theorem upsample_keeps_samples_full) against the input itself
+            if not _close(mo[::p // g], data, max(1.0, np.abs(data).max()), tol=1e-12):
+                ctx.disagree("resample-model-keeps-samples", inp, data.tolist(), mo[::p // g].tolist())
+        if np.all(data == data[0]):
+            ctx.count("branch:resample-constant-input")
         if not _close(fir, mf, max(1.0, np.abs(fir).max())):
             ctx.disagree("resample-fir", inp, fir.tolist(), mf.tolist())
         if not _close(out, mo, max(1.0, np.abs(data).max()) * max(1.0, np.abs(fir).sum())):
@@ -713,6 +837,9 @@ def _corr_rescale(ctx, drv):
         clipped_first = oL[lo] < FLr[0]
         clipped_last = oU[hi - 1] > FUr[-1]
         ctx.case(("rescale", json.dumps(c, sort_keys=True)), nontrivial=clipped_first or clipped_last or c["kout"] != "lin", branch=br)
+        for tag, v in (("in", F), ("out", freq)):
+            if c["k" + tag] == "nearlin" and 0 < _lin_dev(v):
+                ctx.count("branch:rescale-nearlin-%s-tol" % ("below" if _lin_dev(v) < 1e-12 else "above"))
         if clipped_first:
             ctx.count("branch:rescale-first-band-straddles-input-edge")
         if clipped_last:
@@ -795,15 +922,237 @@ def _corr_rescale(ctx, drv):
             ctx.disagree("rescale-n_oct", c, {"psd": np.asarray(po).tolist(), "ms": np.asarray(ms).tolist()}, {"psd": mp_.tolist(), "ms": mm.tolist()})
 
 
+# ----- fixtime's time base -----------------------------------------------------------------
+
+def _gen_told_for_tnew(rng):
+    """(sr, sorted dyadic told) covering the branches of _mk_initial_tnew / _get_time_shifts"""
+    kind = rng.choice(["fixtime", "fixtime", "fixtime", "alternating", "drift", "halfspan", "short"])
+    if kind == "fixtime":
+        c = _gen_fixtime(rng)
+        t = sorted(c["t"])
+        return c["sr"], t, "fixtime-" + c["kind"]
+    sr = 2 ** rng.choice([0, 1, 2, 3, 4])
+    u = GRID // sr
+    n = rng.randint(2, 40)
+    t0 = rng.randint(-400, 400)
+    if kind == "alternating":      # every step is off by half a step: all points are turning points
+        steps = [u // 2 if k % 2 else 3 * u // 2 for k in range(n - 1)]
+    elif kind == "drift":          # steps 9/8 of nominal: inside the 1/4-step tolerance, lengths mismatch
+        steps = [u + u // 8] * (n - 1)
+    elif kind == "halfspan":       # (told[-1] - told[0])*sr = k + 1/2: the tie of round()
+        steps = [u] * (n - 2) + [u + u // 2] if n > 2 else [u + u // 2]
+    else:
+        n = rng.randint(2, 4)
+        steps = [rng.choice([u, u, 2 * u, u // 4, 5 * u // 4, 3 * u // 4]) for _ in range(n - 1)]
+    ts = [t0]
+    for st in steps:
+        ts.append(ts[-1] + st)
+    return sr, [v / GRID for v in ts], kind
+
+
+def _cmp_tnew(tn, rep, dt):
+    """compare a returned time vector with the model's reply; -> (ok, exact?, model dict)"""
+    a, b, al, delt, mm = rep.split("|")
+    mt = _unq(a)
+    m = {"tnew": mt, "tp": [int(x) for x in b.split()], "align": al == "1", "delt": Fraction(delt), "mismatch": mm == "1"}
+    den = m["delt"].denominator
+    dyadic = den & (den - 1) == 0 and den <= 2 ** 30
+    if len(mt) != len(tn):
+        return False, dyadic, m
+    it = [Fraction(float(x)) for x in tn]
+    if dyadic:
+        return it == mt, True, m
+    tol = Fraction(1, 10 ** 9) * Fraction(dt)
+    return all(abs(x - y) <= tol for x, y in zip(it, mt)), False, m
+
+
+def _corr_tnew(ctx, drv):
+    from pyyeti import dsp
+
+    rng = ctx.rng
+    cases = [(1, [0.0, 1.0, 5.0, 6.0], "doc"), (1, [0.0, 4.0], "doc"), (8, (np.arange(10) / 8).tolist(), "uniform"),
+             (1, [0.0, 2.5], "halfspan"), (1, [0.0, 1.0, 2.0, 3.5], "halfspan"), (2, [0.0, 0.5, 1.0, 1.75], "halfspan")]
+    cases += [_gen_told_for_tnew(rng) for _ in range(ctx.pick(1500, 12000))]
+    rep = drv.ask(["mkt %s | %s" % (_q(sr), _qs(t)) for sr, t, _ in cases])
+    for (sr, t, kind), r in zip(cases, rep):
+        told = np.array(t, dtype=float)
+        dt = 1 / sr
+        inp = {"sr": sr, "told": t}
+        try:
+            with warnings.catch_warnings():
+                _quiet()
+                tn, tp = dsp._mk_initial_tnew(told.copy(), sr, dt, np.diff(told))
+            impl = "ok"
+        except (ValueError, IndexError) as e_:
+            impl = "raises"
+        if impl == "raises" or r == "raises":
+            ctx.case(("tnew", sr, tuple(t)), nontrivial=False, branch="tnew:raises")
+            if impl != r:
+                ctx.disagree("mk-initial-tnew", inp, impl, r)
+            continue
+        ok, exact, m = _cmp_tnew(tn, r, dt)
+        span = Fraction(t[-1]) - Fraction(t[0])
+        half = (span * sr) % 1 == Fraction(1, 2)
+        br = "no-align" if not m["align"] else "align-length-mismatch" if m["mismatch"] else "align-mean"
+        ctx.case(("tnew", sr, tuple(t)), nontrivial=br != "align-mean" or m["delt"] != 0 or half, branch="tnew:" + br)
+        ctx.count("branch:tnew-" + br)
+        if half:
+            ctx.count("branch:tnew-round-half-tie")
+        if exact:
+            ctx.count("branch:tnew-exact-compare")
+        if m["delt"] != 0:
+            ctx.count("branch:tnew-shifted")
+        if not ok or [int(i) for i in tp] != m["tp"]:
+            ctx.disagree("mk-initial-tnew", inp, {"tnew": np.asarray(tn).tolist()[:10], "len": len(tn), "tp": [int(i) for i in tp][:12]},
+                         {"tnew": [float(x) for x in m["tnew"][:10]], "len": len(m["tnew"]), "tp": m["tp"][:12], "delt": str(m["delt"])})
+
+
+# ----- band edges (rescale._get_fl_fu and the input-scale test) -------------------------------
+
+def _corr_edges(ctx, drv):
+    if _EDGE_SRC is None:
+        ctx.skip("rescale's edge code was not found in the source text (translator obligation is broken)")
+        return False
+    get_fl_fu, in_edges = _EDGE_SRC
+    rng = ctx.rng
+    nprng = ctx.np_rng(29)
+    cases = [([0.0, 5.0, 10.0], "lin"), ([1.0, 2.0, 4.0, 8.0], "log"), ([1.0, 2.0, 3.0 + 3e-13], "nearlin"),
+             ([1.0, 2.0, 3.0 + 1e-9], "nearlin"), ([1.0, 2.0], "lin")]
+    for _ in range(ctx.pick(600, 5000)):
+        kind = rng.choice(["lin", "lintol", "nearlin", "nearlin", "log"])
+        cases.append((_gen_scale(rng, nprng, kind), kind))
+    req = []
+    for c, kind in cases:
+        req += ["edges " + _bits(c), "inedges " + _bits(c), "edgesq " + _qs(c), "inedgesq " + _qs(c)]
+    rep = drv.ask(req)
+    for k, (c, kind) in enumerate(cases):
+        arr = np.array(c, dtype=float)
+        with np.errstate(all="ignore"):
+            FL, FU = get_fl_fu(arr.copy())
+            FLi, FUi = in_edges(arr.copy())
+        dev = _lin_dev(c)
+        zone = "exact" if dev == 0 else "below-tol" if dev < 1e-12 else "above-tol"
+        ctx.case(("edges", tuple(c)), nontrivial=zone != "exact", branch="edges:" + zone)
+        if kind == "nearlin" and zone != "exact":
+            ctx.count("branch:edges-nearlin-" + zone)
+        inp = {"centres": c}
+        for nm, (a, b), r in (("edges-get-fl-fu", (FL, FU), rep[4 * k]), ("edges-input-scale", (FLi, FUi), rep[4 * k + 1])):
+            ml, mu, flag = r.split("|")
+            ml, mu = _unbits(ml), _unbits(mu)
+            lin = flag == "1"
+            scale = float(np.max(np.abs(arr))) + 1.0
+            good = (np.array_equal(a, ml) and np.array_equal(b, mu)) if lin else (_close(a, ml, scale) and _close(b, mu, scale))
+            if not good:
+                ctx.disagree(nm, inp, {"FL": np.asarray(a).tolist(), "FU": np.asarray(b).tolist()}, {"FL": ml.tolist(), "FU": mu.tolist(), "linear": lin})
+            ctx.count("branch:%s-%s" % (nm, "linear" if lin else "log"))
+        for nm, (a, b), r in (("edges-get-fl-fu-rational", (FL, FU), rep[4 * k + 2]), ("edges-input-scale-rational", (FLi, FUi), rep[4 * k + 3])):
+            if r == "nonlinear" or zone != "exact":
+                continue
+            ml, mu = r.split("|")
+            if [Fraction(float(x)) for x in a] != _unq(ml) or [Fraction(float(x)) for x in b] != _unq(mu):
+                # exact only when the float arithmetic was exact: dyadic centres
+                if all(Fraction(x).denominator <= 2 ** 20 for x in c):
+                    ctx.disagree(nm, inp, {"FL": np.asarray(a).tolist(), "FU": np.asarray(b).tolist()}, {"FL": ml, "FU": mu})
+            else:
+                ctx.count("branch:edges-exact-rational")
+    return True
+
+
+# ----- get_freq_oct ----------------------------------------------------------------------------
+
+def _gen_oct(rng):
+    n = rng.choice([1, 3, 6, 12, 2, 24])
+    s = rng.choice([0.0, -1.0, 0.8, 1.0, 5.0, 20.0, 505.0, 10 ** rng.uniform(-1, 3)])
+    e = max(s, 1.0) * rng.choice([1.0, 1.01, 1.3, 2.0, 10.0, 100.0, 10 ** rng.uniform(0, 2.5)])
+    return {"n": n, "s": s, "e": e, "exact": rng.random() < 0.5, "trim": rng.choice(["outside", "center", "inside", "band"]),
+            "anchor": rng.choice([None, None, 2.0, 100.0, 0.5])}
+
+
+def _oct_near_tie(c):
+    """is a trimming decision or the band count within rounding of a tie? (then log2/pow kernels decide)"""
+    n, ex = c["n"], c["exact"]
+    a = c["anchor"] or (1000.0 if ex else 1.0)
+    s = c["s"] if c["s"] > 0 else 1.0
+    step = math.log(2.0) / n if ex else math.log(10.0) * 3 / (10 * n)
+    for v in (s, c["e"]):
+        x = math.log(v / a) / step          # position in bands; centres at integers, edges at half-integers
+        for y in (x, x * 2):
+            if abs(y - round(y)) < 1e-9 * max(1.0, abs(y)):
+                return True
+    return False
+
+
+def _corr_oct(ctx, drv):
+    from pyyeti import psd
+
+    rng = ctx.rng
+    cases = [{"n": 3, "s": 505.0, "e": 900.0, "exact": False, "trim": "outside", "anchor": None},
+             {"n": 3, "s": 505.0, "e": 900.0, "exact": False, "trim": "center", "anchor": None},
+             {"n": 3, "s": 505.0, "e": 900.0, "exact": True, "trim": "outside", "anchor": None},
+             {"n": 6, "s": 0.8, "e": 2.6, "exact": True, "trim": "outside", "anchor": 2.0}]
+    cases += [_gen_oct(rng) for _ in range(ctx.pick(500, 4000))]
+    req = []
+    for c in cases:
+        args = [float(c["n"]), c["s"], c["e"]] + ([c["anchor"]] if c["anchor"] is not None else [])
+        req.append("oct %d %s | %s" % (c["exact"], {"outside": "o", "band": "o", "center": "c", "inside": "i"}[c["trim"]], _bits(args)))
+    rep = drv.ask(req)
+    for c, r in zip(cases, rep):
+        try:
+            with np.errstate(all="ignore"):
+                F, FL, FU = psd.get_freq_oct(c["n"], (c["s"], c["e"]), exact=c["exact"], trim=c["trim"], anchor=c["anchor"])
+            impl = "ok"
+        except ValueError:
+            impl = "value-error"
+        tie = _oct_near_tie(c)
+        br = "oct:%s:%s" % ("exact" if c["exact"] else "approx", "outside" if c["trim"] == "band" else c["trim"])
+        if impl != "ok" or r == "value-error":
+            ctx.case(("oct", json.dumps(c, sort_keys=True)), nontrivial=False, branch="oct:value-error")
+            if impl != r and not tie:
+                ctx.disagree("get-freq-oct", c, impl, r[:60])
+            continue
+        a, b, d = [_unbits(x) for x in r.split("|")]
+        if len(a) != len(F):
+            if tie:
+                ctx.skip("get_freq_oct: a trimming decision within rounding of a tie")
+            else:
+                ctx.disagree("get-freq-oct", c, {"len": len(F), "F": F.tolist()[:6]}, {"len": len(a), "F": a.tolist()[:6]})
+            continue
+        ctx.case(("oct", json.dumps(c, sort_keys=True)), nontrivial=True, branch=br)
+        if c["anchor"] is not None:
+            ctx.count("branch:oct-anchor-given")
+        if c["s"] <= 0:
+            ctx.count("branch:oct-frange0-nonpositive")
+        sc = float(np.max(F)) if len(F) else 1.0
+        if not (_close(F / sc, a / sc, 1.0) and _close(FL / sc, b / sc, 1.0) and _close(FU / sc, d / sc, 1.0)):
+            if tie and not _close(F / sc, a / sc, 1.0):
+                ctx.skip("get_freq_oct: a trimming decision within rounding of a tie")
+                continue
+            ctx.disagree("get-freq-oct", c, {"F": F.tolist()[:6], "FL": FL.tolist()[:6], "FU": FU.tolist()[:6]},
+                         {"F": a.tolist()[:6], "FL": b.tolist()[:6], "FU": d.tolist()[:6]})
+
+
 def correspondence(ctx):
     drv = ctx.driver("C19")
     _corr_index_rules(ctx, drv)
     _corr_fixtime(ctx, drv)
+    _corr_tnew(ctx, drv)
     _corr_resample(ctx, drv)
     _corr_psd(ctx, drv)
+    have_edges = _corr_edges(ctx, drv)
     _corr_rescale(ctx, drv)
+    _corr_oct(ctx, drv)
     ctx.exhaustive = False
-    ctx.require_branches([
+    ctx.require_branches(([
+        "branch:edges-nearlin-below-tol", "branch:edges-nearlin-above-tol", "branch:edges-get-fl-fu-linear",
+        "branch:edges-get-fl-fu-log", "branch:edges-input-scale-linear", "branch:edges-input-scale-log",
+        "branch:edges-exact-rational", "edges:exact", "edges:below-tol", "edges:above-tol",
+    ] if have_edges else []) + [
+        "branch:tnew-no-align", "branch:tnew-align-length-mismatch", "branch:tnew-align-mean", "branch:tnew-round-half-tie",
+        "branch:tnew-exact-compare", "branch:tnew-shifted", "branch:fixtime-tnew-end-to-end",
+        "branch:resample-upsample-q1", "branch:resample-constant-input",
+        "branch:rescale-nearlin-below-tol", "branch:rescale-nearlin-above-tol",
+        "oct:exact:outside", "oct:exact:center", "oct:exact:inside", "oct:approx:outside", "oct:approx:center",
+        "oct:approx:inside", "oct:value-error", "branch:oct-anchor-given", "branch:oct-frange0-nonpositive",
         "branch:index-tie", "branch:index-out-of-range", "branch:index-duplicate-times",
         "branch:closest-wraps-to-minus-one", "branch:numba-for-else-zeros",
         "branch:fixtime-previous-tol0", "branch:resample-p>1-and-q>1", "branch:resample-tnew-noninteger-length",
@@ -833,6 +1182,13 @@ def _or_fixtime(ctx, c):
     k = np.arange(len(tn))
     if len(tn) != len(yn) or not np.all(np.abs((tn - tn[0]) - k * dt) <= 1e-9 * dt):
         ctx.fail("fixtime-nonuniform-time-base", "fixtime's time vector is not tnew[0] + k/sr", inp, tn.tolist()[:12], "uniform, step %r" % dt)
+        return
+    # the documented span rule: round((t_end - t_0) * sr) + 1 points (Python's round: halves to even)
+    L = int(round(float((tc[-1] - tc[0]) * c["sr"]))) + 1
+    if len(tn) != L:
+        half = ((Fraction(float(tc[-1])) - Fraction(float(tc[0]))) * c["sr"]) % 1 == Fraction(1, 2)
+        ctx.fail("fixtime-time-base-length" + ("-half-step-tie" if half else ""),
+                 "fixtime's uniform time vector does not have round((t_end - t_0)*sr) + 1 points", inp, len(tn), L)
         return
     # the expected sample for every new time, by brute force over the cleaned input
     want = []
@@ -903,6 +1259,22 @@ def _or_spec(ctx, spec):
         else:
             fam = "area-slope-minus-one" if any(abs(s + 1) < 1e-8 for s in sl) else "area-integral"
             ctx.fail(fam, "psd.area differs from the integral of the log-log interpolation", inp, a, ref)
+    # ... and against the integral of psd.interp itself (48-point Gauss-Legendre in ln f per segment)
+    gx, gw = np.polynomial.legendre.leggauss(48)
+    xs, ws = [], []
+    for (f1, _), (f2, _) in zip(spec, spec[1:]):
+        L = math.log(f2 / f1)
+        u = 0.5 * L * (gx + 1.0)
+        x = np.clip(f1 * np.exp(u), f1, f2)
+        xs.append(x)
+        ws.append(0.5 * L * gw * x)
+    with np.errstate(all="ignore"):
+        vals = psd.interp(arr, np.concatenate(xs)).ravel()
+    integ = float(np.sum(vals * np.concatenate(ws)))
+    if not abs(a - integ) <= (rtol + 1e-10) * abs(integ):
+        if not any(0 < abs(s_ + 1) < 1e-5 for s_ in sl) or abs(a - integ) > 1e-4 * abs(integ):
+            ctx.fail("area-vs-integral-of-interp", "psd.area differs from the numerical integral of psd.interp(spec, f) over the specification's range",
+                     inp, a, integ)
     if len(spec) > 2:
         k = len(spec) // 2
         with np.errstate(all="ignore"):
@@ -1020,6 +1392,128 @@ def _or_rescale_oct(ctx, c):
     ctx.count("oracle:rescale-n_oct")
 
 
+def _or_oct(ctx, c):
+    """get_freq_oct as documented: FU/FL = 2^(1/n) (10^(3/(10n))), F = sqrt(FL*FU), contiguous bands on the anchored
+    grid, and the three trimming rules"""
+    from pyyeti import psd
+
+    n, ex, tr = c["n"], c["exact"], c["trim"]
+    try:
+        with np.errstate(all="ignore"):
+            F, FL, FU = psd.get_freq_oct(n, (c["s"], c["e"]), exact=ex, trim=tr, anchor=c["anchor"])
+    except ValueError:
+        return
+    if len(F) == 0:
+        return
+    R = 2.0 ** (1.0 / n) if ex else 10.0 ** (3.0 / (10 * n))
+    a = c["anchor"] or (1000.0 if ex else 1.0)
+    s = c["s"] if c["s"] > 0 else 1.0
+    e = c["e"]
+    rt = 1e-11
+
+    def rel(x, y):
+        return np.all(np.abs(np.asarray(x) - np.asarray(y)) <= rt * np.abs(np.asarray(y)))
+
+    obs = {"F": F.tolist()[:4], "FL": FL.tolist()[:4], "FU": FU.tolist()[:4], "len": len(F)}
+    if not rel(FU / FL, R):
+        ctx.fail("get-freq-oct-band-ratio", "get_freq_oct: FU/FL is not 2^(1/n) (exact) / 10^(3/(10n))", c, obs, R)
+        return
+    if not rel(F * F, FL * FU):
+        ctx.fail("get-freq-oct-centre-not-geometric-mean", "get_freq_oct: F is not sqrt(FL*FU)", c, obs, "F**2 == FL*FU")
+        return
+    if len(F) > 1 and not (rel(FU[:-1], FL[1:]) and rel(F[1:] / F[:-1], R)):
+        ctx.fail("get-freq-oct-bands-not-contiguous", "get_freq_oct: consecutive bands do not share an edge / centres are not a geometric progression", c, obs, R)
+        return
+    kk = math.log(F[0] / a) / math.log(R)
+    if abs(kk - round(kk)) > 1e-7 * max(1.0, abs(kk)):
+        ctx.fail("get-freq-oct-anchor", "get_freq_oct: centre frequencies are not anchor * ratio^integer", c, obs, a)
+        return
+    if _oct_near_tie(c) or s > e:
+        return
+    g = 1.0 + 1e-9
+    if tr in ("outside", "band"):
+        ok = FL[0] <= s * g and s <= FU[0] * g and FL[-1] <= e * g and e <= FU[-1] * g
+        what = "first band includes frange[0] and last band includes frange[-1]"
+    elif tr == "center":
+        ok = s <= F[0] * g and F[0] < s * R * g and F[-1] <= e * g and e < F[-1] * R * g
+        what = "exactly the centre frequencies inside frange"
+    else:
+        ok = s <= FL[0] * g and FL[0] < s * R * g and FU[-1] <= e * g and e < FU[-1] * R * g
+        what = "exactly the bands lying inside frange"
+    if not ok:
+        ctx.fail("get-freq-oct-trim-" + ("outside" if tr == "band" else tr), "get_freq_oct(trim=%r) does not return %s" % (tr, what), c,
+                 {"first": [float(FL[0]), float(F[0]), float(FU[0])], "last": [float(FL[-1]), float(F[-1]), float(FU[-1])]}, [s, e])
+    ctx.count("oracle:get-freq-oct")
+
+
+def _gen_psd2time(rng):
+    f0 = float(rng.choice([5, 10, 20, 35]))
+    return {"f0": f0, "f1": f0 * float(rng.choice([1.5, 2, 4, 10])), "ppc": float(rng.choice([3, 4, 10, 2.5])),
+            "df": rng.choice([None, f0 / 50, f0 / 7.3, 0.37]), "em": rng.choice(["interp", "rescale"]), "pseed": rng.randint(0, 10 ** 6),
+            "lvl": [0.01 * rng.choice([0.5, 1.0, 2.0]), 0.1, 0.03]}
+
+
+def _or_psd2time(ctx, c):
+    """psd2time's conservation claim: the signal's mean-square is sum(PSD(f) * df) over its sinusoids; sr, N, time base"""
+    from pyyeti import psd
+
+    f0, f1, ppc, df = c["f0"], c["f1"], c["ppc"], c["df"]
+    spec = np.array([[f0 * 0.5, c["lvl"][0]], [f0 * 1.3, c["lvl"][1]], [f1 * 2, c["lvl"][2]]])
+    with warnings.catch_warnings():
+        _quiet()
+        sig, sr, t = psd.psd2time(spec, f0, f1, ppc=ppc, df=df, gettime=True, expand_method=c["em"], rng=np.random.default_rng(c["pseed"]))
+    d = f0 / 100 if df is None else min(df, f0)
+    N = int(np.ceil(f1 * ppc * (1 / d)))
+    d = f1 * ppc / N
+    d = f0 / np.floor(f0 / d)
+    freq = np.arange(f0, f1 + d, d)
+    with np.errstate(all="ignore"):
+        lvl = psd.interp(spec, freq).ravel() if c["em"] == "interp" else psd.rescale(spec[:, 1], spec[:, 0], freq=freq)[0]
+    want = float(np.sum(lvl * d))
+    got = float(np.mean(sig ** 2))
+    if len(sig) != N or abs(sr - N * d) > 1e-9 * sr or not np.allclose(t, np.arange(N) / sr, rtol=1e-12, atol=0):
+        ctx.fail("psd2time-length-or-rate", "psd2time: number of points / sample rate / time vector differ from the documented N, N*df, arange(N)/sr",
+                 c, [len(sig), float(sr)], [N, N * d])
+    elif not abs(got - want) <= 1e-9 * want:
+        ctx.fail("psd2time-mean-square", "psd2time: mean-square of the signal is not sum(PSD(f)*df) over its frequencies", c, got, want)
+    ctx.count("oracle:psd2time")
+
+
+def _or_psdmod(ctx, c):
+    """psdmod = maximum over the time slices of Welch PSDs; one slice covering the signal = Welch itself"""
+    from pyyeti import psd
+    import scipy.signal as signal
+
+    sig = np.random.default_rng(c["mseed"]).normal(size=c["len"])
+    sr, nper = c["sr"], c["nperseg"]
+    f, p = psd.psdmod(sig, sr, nperseg=nper, timeslice=c["len"] / sr, tsoverlap=0.5)
+    f2, p2 = signal.welch(sig, sr, nperseg=nper)
+    if not (np.array_equal(f, f2) and np.allclose(p, p2, rtol=1e-12, atol=0)):
+        ctx.fail("psdmod-whole-signal-differs-from-welch", "psdmod with one time slice covering the signal differs from scipy.signal.welch", c,
+                 p.tolist()[:4], p2.tolist()[:4])
+        return
+    f, p, pm, t = psd.psdmod(sig, sr, nperseg=nper, timeslice=c["slice"], tsoverlap=0.5, getmap=True)
+    if not np.array_equal(p, pm.max(axis=1)):
+        ctx.fail("psdmod-not-max-of-map", "psdmod is not the maximum over the columns of its PSD map", c, p.tolist()[:4], pm.max(axis=1).tolist()[:4])
+    ctx.count("oracle:psdmod")
+
+
+def _or_nanspec(ctx, spec, row):
+    """proc_psd_spec: rows whose frequency is NaN are deleted (area and interp are unchanged by them)"""
+    from pyyeti import psd
+
+    arr = np.array(spec)
+    dirty = np.insert(arr, row, [np.nan, 7.0], axis=0)
+    x = np.sqrt(arr[:-1, 0] * arr[1:, 0])
+    with np.errstate(all="ignore"):
+        a, b = psd.area(arr), psd.area(dirty)
+        i1, i2 = psd.interp(arr, x), psd.interp(dirty, x)
+    if not (np.array_equal(a, b) and np.array_equal(i1, i2)):
+        ctx.fail("spec-nan-frequency-row", "a specification row with NaN frequency is not ignored by area/interp", {"spec": spec, "nanrow": row},
+                 [b.tolist(), i2.ravel().tolist()[:4]], [a.tolist(), i1.ravel().tolist()[:4]])
+    ctx.count("oracle:spec-nan-row")
+
+
 def _gen_resample(rng):
     return {"n": rng.randint(1, 90), "p": rng.randint(1, 9), "q": rng.randint(1, 9), "pts": rng.choice([3, 5, 10, 10, 15]),
             "dseed": rng.randint(0, 10 ** 6), "offset": rng.choice([0.0, 5.0]), "fr": rng.choice([0.01, 0.02, 0.04])}
@@ -1125,13 +1619,19 @@ def _or_index_private(ctx, told, tnew, nb):
 
 
 def _hint_inputs(hints):
-    out = {"fixtime": [], "spec": [], "rescale": []}
+    out = {"fixtime": [], "spec": [], "rescale": [], "oct": []}
     for h in hints[:200]:
         i = h.get("input")
         if not isinstance(i, dict):
             continue
         if "hold" in i and "t" in i:
             out["fixtime"].append(i)
+        elif "told" in i and "sr" in i and not isinstance(i["told"][0], str):
+            for hold in (False, True):
+                out["fixtime"].append({"t": list(i["told"]), "y": ["%r" % float(k) for k in range(len(i["told"]))], "sr": i["sr"], "hold": hold,
+                                       "tol": 1e-3, "deldrops": True, "delouttimes": False, "kind": "hint"})
+        elif "trim" in i and "exact" in i:
+            out["oct"].append(i)
         elif "spec" in i:
             out["spec"].append([tuple(r) for r in i["spec"]])
         elif "freq" in i and "F" in i:
@@ -1186,6 +1686,20 @@ def search(ctx, hints):
             return
     for _ in range(ctx.pick(150, 1200)):
         _or_rescale_oct(ctx, _gen_rescale_oct(rng, nprng))
+    # get_freq_oct, psd2time, psdmod, NaN rows -------------------------------------------------
+    octs = [{"n": 3, "s": 505.0, "e": 900.0, "exact": ex, "trim": tr, "anchor": None} for ex in (False, True) for tr in ("outside", "center", "inside")]
+    octs = list(h["oct"][:40]) + octs + [_gen_oct(rng) for _ in range(ctx.pick(400, 3000))]
+    for c in octs:
+        _or_oct(ctx, c)
+        if len(ctx.failures) > 12:
+            return
+    for _ in range(ctx.pick(10, 60)):
+        _or_psd2time(ctx, _gen_psd2time(rng))
+    for _ in range(ctx.pick(2, 8)):
+        _or_psdmod(ctx, {"mseed": rng.randint(0, 10 ** 6), "len": 4000, "sr": 400.0, "nperseg": rng.choice([100, 200]), "slice": rng.choice([1.0, 2.0])})
+    for sp in specs[:ctx.pick(60, 400)]:
+        if len(sp) >= 2:
+            _or_nanspec(ctx, sp, rng.randrange(0, len(sp) + 1))
     # resample ------------------------------------------------------------------------
     _or_resample(ctx, {"n": 89, "p": 3, "q": 7, "pts": 10, "dseed": 1, "offset": 0.0, "fr": 0.02})  # F32's input
     for _ in range(ctx.pick(250, 2000)):
@@ -1201,8 +1715,16 @@ def replay(ctx, data):
     sub = type(ctx)(ctx.prop, ctx.tier, ctx.seed)
     if "hold" in i and "t" in i:
         _or_fixtime(sub, i)
+    elif "nanrow" in i:
+        _or_nanspec(sub, [tuple(r) for r in i["spec"]], i["nanrow"])
     elif "spec" in i:
         _or_spec(sub, [tuple(r) for r in i["spec"]])
+    elif "trim" in i:
+        _or_oct(sub, i)
+    elif "pseed" in i:
+        _or_psd2time(sub, i)
+    elif "mseed" in i:
+        _or_psdmod(sub, i)
     elif "n_oct" in i:
         _or_rescale_oct(sub, i)
     elif "freq" in i and "F" in i:
